@@ -316,6 +316,12 @@ func (in *Interp) global(g *ssa.Global) *Object {
 	if o, ok := in.globals[g]; ok {
 		return o
 	}
+	if h, ok := globalHooks[g.Pkg.Pkg.Path()+"."+g.Name()]; ok {
+		et := g.Type().(*types.Pointer).Elem()
+		o := in.newObject(et, h(in), "global "+g.String())
+		in.globals[g] = o
+		return o
+	}
 	pkg := g.Pkg
 	if !in.initDone[pkg] {
 		in.initDone[pkg] = true
